@@ -373,12 +373,14 @@ impl<'a> Run<'a> {
             Ok(response) => response,
             Err(_) => return None,
         };
-        if response.content_length() > self.collector.config().max_object_size {
-            warn!(
-                "Trust anchor certificate {uri} exceeds size limit. \
-                 Ignoring."
-            );
-            return None
+        if let Some(limit) = self.collector.config().max_object_size {
+            if response.content_length() > Some(limit) {
+                warn!(
+                    "Trust anchor certificate {uri} exceeds size limit. \
+                     Ignoring."
+                );
+                return None
+            }
         }
 
         let mut reader = LimitedDataRead::new(
